@@ -69,7 +69,11 @@ type chunkRes struct {
 	Mis      []mismatch       `json:"m,omitempty"`
 	Samples  []any            `json:"s,omitempty"`
 	Err      string           `json:"e,omitempty"` // harness error
+	Skipped  bool             `json:"k,omitempty"` // not executed (budget used up, or the worker already saw several failing chunks)
 	hashes   []byte
+	// allClassified: every mismatch so far carries a precise input-class signature (candidate known finding)
+	allClassified bool
+	sawMismatch   bool
 }
 
 type mismatch struct {
@@ -115,7 +119,20 @@ func (r *chunkRes) mismatch(m mismatch) {
 	if len(r.Mis) < 8 {
 		r.Mis = append(r.Mis, m)
 	}
-	r.inc("MISMATCH")
+	if !r.sawMismatch {
+		r.sawMismatch, r.allClassified = true, true
+	}
+	if !classifiedSigs[m.Sig] {
+		r.allClassified = false
+	}
+	r.inc("divergence(reported-or-known-finding)")
+}
+
+// classifiedSigs are the signatures of precisely classified input classes (see findings.json); chunks that only show
+// these do not count towards a worker's "stop collecting" threshold.
+var classifiedSigs = map[string]bool{
+	"atomic:misaligned-and-out-of-bounds:trap-kind": true,
+	"reexport:exported-host-import:compiler-panics": true,
 }
 
 // trapClass maps a Call error to a canonical class. Error texts are never compared.
